@@ -27,8 +27,17 @@ RULE = ('histories of 1-30 calls over 1-3 Ipmi objects (pyipmi.create_connection
         'component descriptions over all non-NUL bytes incl. printable text with backslash sequences (pool shared '
         'with the descriptors of find_component_id_by_descriptor), fan trays of both command-set revisions '
         '(R1.0/R2.0: three-byte Set Fan Level only; R3.0: optional fourth byte), PICMG 3.x and OEM (F0h..FFh) '
-        'link types, second sensor state bytes with the reserved bit 7 returned as 1.  STRING ARGUMENTS (user names, '
-        'passwords, component descriptors; the only str parameters of the exercised operations): printable text of every '
+        'link types, second sensor state bytes with the reserved bit 7 returned as 1.  TEXTUAL NUMERIC ARGUMENT '
+        '(set_ip_address(ip_address): the only argument of the exercised operations that spells numbers as text - VLAN ids, '
+        'channels, addresses, levels are ints; boot mode / IP source are two-word enumerations, both members exercised): the '
+        'generator starts from four octets and writes each in one of the spellings plain str(int), zero-padded to 2 / 3 / 4 '
+        'digits, one zero in front (010, 001, 08, 009, 000, 0255), "+7", " 9", "8 ", a newline behind the address; half of the '
+        'random addresses are plain, half carry at least one other spelling (octets from the pad-sensitive pool 8 9 10 18 19 '
+        '64 77 80 89 99 100 0 255 1 7 or uniform; 30 % of those the whole address in one fixed width); directed: every octet '
+        'position x 16 spellings / values incl. the extremes 0 and 255, 14 whole addresses in fixed-width form, each written '
+        'and read back; oracle = the BMC stores the four DECIMAL values the generator started from (evidence: '
+        'ip_address_written:plain / zero-padded-octet / signed-or-blank-padded-octet).  STRING ARGUMENTS (user names, '
+        'passwords, component descriptors; the other str parameters of the exercised operations): printable text of every '
         'length 0..16 and, half of the generated names / passwords plus two directed histories per shape (NAME_SHAPES), '
         'strings that BEGIN and / or END with a blank character (space, tab, newline, CR, VT, FF, 1Ch, 1Fh - what '
         'str.strip() removes), consist of blanks only, carry blanks inside only, fill all 16 characters with the blank '
@@ -45,6 +54,14 @@ ASSUMPTIONS = [
     'a str argument (user name, password) denotes its characters, one byte each, NUL padded to the 16-byte field - '
     'blank characters at either end are characters of the name like any other (IPMI v2.0 22.28 / 22.30: ASCII, no '
     'character excluded); a trailing NUL is the padding itself; non-ASCII characters are not generated',
+    'set_ip_address(ip_address): the text denotes four octets, each numeral read in base TEN whatever it begins with '
+    '("xxx.xxx.xxx.xxx" of the docstrings, int() per octet: leading zeros are digits, never a base prefix); a "+" sign and '
+    'blanks around an octet / behind the address - accepted by the documented conversion int() - denote the same number; '
+    'spellings int() accepts beyond that (underscores between digits, non-ASCII digits) and texts that are no such address '
+    '(other than four octets, an octet above 255, hex / octal prefixes) are not generated: what the call does with them is '
+    'not judged.  Lean side: Model.Api.ipAddressToData (split at ".", octetOfText = int() on ASCII) is compared with the '
+    'code on every generated spelling (model line set_ip_address_text); Props.C07.write_set_ip_address_text / '
+    'table_ip_text_decimal prove it for every dotted numeral with any number of leading zeros per octet',
     'denotation of Python argument values (enum members and strings -> codes by meaning, 7-bit event receiver '
     'address, LED durations in 10 ms units on write / ms on read) is '
     'part of the harness (harness/props/c07.py op table) and of Spec.Bmc.run',
@@ -510,6 +527,74 @@ def _ip(tok):
     return '.'.join('%d' % b for b in lean.unhex(tok))
 
 
+# ------------------------------------------------------------------------------------------
+# TEXTUAL NUMERIC ARGUMENT: set_ip_address(ip_address) takes the address as TEXT ("xxx.xxx.xxx.xxx", each octet a decimal
+# number - pyipmi/lan.py ip_address_to_data; it is the only argument of the exercised operations that spells numbers
+# as text: VLAN ids, channels, ... are ints, get_mac_address only produces text).  The token list of the operation is
+# [hex of the four octets the text DENOTES, channel, hex of the characters of the text]; the generator starts from the
+# octets and writes each one in one of the spellings below, so the denotation does not depend on any parser.
+# ------------------------------------------------------------------------------------------
+OCTET_SPELLINGS = {
+    'plain': lambda n: '%d' % n,
+    'pad3': lambda n: '%03d' % n,            # fixed-width inventories / configuration exports: 192.168.001.010
+    'pad2': lambda n: '%02d' % n,            # 08, 09 - decimal 8 and 9, not numerals of any other base
+    'zero+': lambda n: '0%d' % n,            # one zero in front whatever the width: 010, 0255, 00
+    'pad4': lambda n: '%04d' % n,
+    'plus': lambda n: '+%d' % n,             # forms int() - the documented conversion - accepts as well
+    'blank-before': lambda n: ' %d' % n,
+    'blank-after': lambda n: '%d ' % n,
+}
+ZERO_PADDED = ('pad3', 'pad2', 'zero+', 'pad4')
+# octet values whose zero-padded numeral reads differently (or not at all) in another base, the extremes, and values
+# that read the same in base 8 and base 10
+PAD_SENSITIVE = [8, 9, 10, 18, 19, 64, 77, 80, 89, 99, 100, 0, 255, 1, 7]
+
+
+def ip_text(octets, styles, tail=''):
+    return '.'.join(OCTET_SPELLINGS[st](n) for n, st in zip(octets, styles)) + tail
+
+
+def _ip_tokens(octets, chan, styles=None, tail=''):
+    text = ip_text(octets, styles or ['plain'] * len(octets), tail)
+    return _T(lean.hexs(bytes(octets)), chan, lean.hexs(text.encode('ascii')))
+
+
+def _ip_arg(tok):
+    """the str handed to set_ip_address"""
+    return lean.unhex(tok[2]).decode('ascii') if len(tok) > 2 else _ip(tok[0])
+
+
+def ip_spelling(tok):
+    """classify the spelling of a set_ip_address argument (input distribution, signature)"""
+    text = _ip_arg(tok)
+    if text == _ip(tok[0]):
+        return 'plain'
+    words = [w.strip() for w in text.split('.')]
+    if any(len(w.lstrip('+')) > 1 and w.lstrip('+')[0] == '0' for w in words):
+        return 'zero-padded-octet'
+    return 'signed-or-blank-padded-octet'
+
+
+def g_set_ip(r):
+    """half of the addresses in the plain spelling str(int) (any octets), half with at least one octet spelled
+    otherwise: zero-padded (mostly), '+', blanks around an octet, a newline behind the address; octets of those from the
+    pad-sensitive pool (8, 9, 10, 18, ... 0, 255) or uniform"""
+    if r.random() < 0.5:
+        return _ip_tokens(list(g_bytes(r, 4, 4)), g_chan(r))
+    octets = [r.choice(PAD_SENSITIVE) if r.random() < 0.6 else r.randrange(256) for _ in range(4)]
+    x = r.random()
+    if x < 0.3:
+        st = r.choice(['pad3', 'pad3', 'pad2'])
+        styles = [st] * 4                                  # the whole address in one fixed-width form
+    else:
+        pool = list(ZERO_PADDED) * 3 + ['plain'] * 6 + (['plus', 'blank-before', 'blank-after'] if x > 0.8 else [])
+        styles = [r.choice(pool) for _ in range(4)]
+        if all(st_ == 'plain' for st_ in styles):
+            styles[r.randrange(4)] = r.choice(ZERO_PADDED)
+    tail = '\n' if r.random() < 0.05 else ''
+    return _ip_tokens(octets, g_chan(r), styles, tail)
+
+
 def g_led_cmd(r):
     kind = r.choice(['off', 'on', 'blink', 'blink', 'lamp'])
     color = r.choice([1, 2, 3, 4, 5, 6, 6, 0xe, 0xf])
@@ -531,6 +616,10 @@ class Op(object):
         self.sigfield = lambda tok, exp, obs: None
         # the same for a write (result, exception or BMC state afterwards differ from the oracle)
         self.sigwrite = lambda tok: None
+        # (operation name, tokens) of the line the MODEL is asked with (default: the denoted line the oracle gets)
+        self.modelline = lambda tok: (self.name, self.denote(tok))
+        # the arguments as a reader wants to see them (messages, replay trace)
+        self.show = lambda tok: ' '.join(tok)
 
 
 def _remember_wd(ip, w):
@@ -600,8 +689,12 @@ OPS['get_lan_config_param'].sigfield = lambda tok, exp, obs: 'revision-only' if 
 _op('set_lan_config_param', 'lan', False, g_set_lan,
     lambda ip, t: ip.set_lan_config_param(int(t[0]), int(t[1]), bytearray(lean.unhex(t[2]))), c_none)
 _op('get_ip_address', 'lan', True, lambda r: _T(g_chan(r)), lambda ip, t: ip.get_ip_address(int(t[0])), c_str, ['mut:lan', 'set_ip_address'])
-_op('set_ip_address', 'lan', False, lambda r: _T(lean.hexs(g_bytes(r, 4, 4)), g_chan(r)),
-    lambda ip, t: ip.set_ip_address(_ip(t[0]), int(t[1])), c_none)
+_op('set_ip_address', 'lan', False, g_set_ip, lambda ip, t: ip.set_ip_address(_ip_arg(t), int(t[1])), c_none)
+# the oracle is asked with the four octets the text denotes; the model with the text itself (Model.Api.api_set_ip_address_text)
+OPS['set_ip_address'].denote = lambda tok: list(tok[:2])
+OPS['set_ip_address'].modelline = lambda tok: ('set_ip_address_text', [tok[2], tok[1]]) if len(tok) > 2 else ('set_ip_address', list(tok))
+OPS['set_ip_address'].show = lambda tok: '%r channel=%s' % (_ip_arg(tok), tok[1])
+OPS['set_ip_address'].sigwrite = lambda tok: None if ip_spelling(tok) == 'plain' else ip_spelling(tok)
 _op('get_ip_source', 'lan', True, lambda r: _T(g_chan(r)), lambda ip, t: ip.get_ip_source(int(t[0])), c_str, ['mut:lan', 'set_ip_source'])
 _op('set_ip_source', 'lan', False, lambda r: _T(r.choice([1, 2]), g_chan(r)),
     lambda ip, t: ip.set_ip_source({1: 'static', 2: 'dhcp'}[int(t[0])], int(t[1])), c_none)
@@ -868,7 +961,8 @@ def run_history(drv, hist, modelled, ctx=None, verbose=False):
         is_modelled = st['op'] in modelled or '*' in modelled
         model = model_req = None
         if is_modelled:
-            ans = drv.ask('modelx %d %s %s' % (bi, hist.get('variant', '-'), line))
+            mop, mtok = op.modelline(tok)
+            ans = drv.ask('modelx %d %s %s' % (bi, hist.get('variant', '-'), ' '.join([mop] + list(mtok))))
             if ans == 'bad-op':             # an operation without a single-exchange model (judged against the oracle only)
                 is_modelled = False
             else:
@@ -892,8 +986,9 @@ def run_history(drv, hist, modelled, ctx=None, verbose=False):
             out.trace.append('  BMC state after step %d, spec | code: %s' % (idx, _state_diff(spec_dump, drv.ask('dump %d' % bi))))
         if verbose:
             wire = '; '.join('netfn %02xh lun %d cmd %02xh data %s' % (e[0], e[1], e[2], e[3] or '-') for e in ifaces[k].log[log_from:])
+            shown = line if op.show(tok) == ' '.join(tok) else '%s(%s) [denotes: %s]' % (st['op'], op.show(tok), line)
             out.trace.append('  step %d conn %d bmc %d: %s -> code: %s | spec: %s%s   [on the wire: %s]' % (
-                idx, k, bi, line, obs, exp_res, '' if now[bi] == exp_dig else '  [BMC state differs from spec]', wire or 'nothing'))
+                idx, k, bi, shown, obs, exp_res, '' if now[bi] == exp_dig else '  [BMC state differs from spec]', wire or 'nothing'))
         if ctx is not None:
             ctx.case((st['op'], tuple(tok), digests[bi]))
             ctx.count('op:' + st['op'])
@@ -905,6 +1000,8 @@ def run_history(drv, hist, modelled, ctx=None, verbose=False):
                 ctx.count('name_read:' + name_shape(lean.unhex(exp_res).rstrip(b'\0')))
             if st['op'] == 'find_component_id_by_descriptor':
                 ctx.count('descriptor:' + name_shape(lean.unhex(tok[0])))
+            if st['op'] == 'set_ip_address':
+                ctx.count('ip_address_written:' + ip_spelling(tok))
             ctx.count('outcome:' + ('cc' if obs.startswith('cc:') else 'exception' if obs.startswith('py:') else 'ok'))
             if st['op'] == 'get_lan_config_param':
                 ctx.count('lan_read:' + ('revision-only channel %s' % ('0' if tok[0] == '0' else '1-15') if tok[4] == '1' else 'data'))
@@ -927,11 +1024,11 @@ def run_history(drv, hist, modelled, ctx=None, verbose=False):
             else:
                 fld = op.sigwrite(tok) or ('raises' if (obs.startswith('py:') or obs.startswith('cc:')) else 'result')
             viol = ('C07:' + fld[1:] if fld.startswith('@') else 'C07:%s:%s' % (st['op'], fld),
-                    '%s(%s) returned/raised %s, a conforming BMC in this state means %s' % (st['op'], ' '.join(tok), obs, exp_res),
+                    '%s(%s) returned/raised %s, a conforming BMC in this state means %s' % (st['op'], op.show(tok), obs, exp_res),
                     idx, exp_res, obs)
         elif now[bi] != exp_dig:
             viol = ('C07:%s:%s' % (st['op'], op.sigwrite(tok) or 'state'),
-                    '%s(%s) left the BMC in a state other than the one the arguments denote' % (st['op'], ' '.join(tok)),
+                    '%s(%s) left the BMC in a state other than the one the arguments denote' % (st['op'], op.show(tok)),
                     idx, 'digest ' + exp_dig, 'digest ' + now[bi])
         else:
             for j in range(nb):
@@ -1074,6 +1171,28 @@ def directed_histories(rng):
         H([C('set_ip_source', src, 7), C('get_ip_source', 7)])
     for v in (0, 1, 255, 256, 394, 4095):
         H([C('set_vlan_id', v, 2), C('get_vlan_id', 2)])
+    # set_ip_address: the TEXT of the address.  Every octet position x the zero-padded numerals ('010', '001', '08', '009',
+    # '000', '00', '0255', '077', '064', '018', '0100'), the extremes 0 / 255, '+7', ' 9', '8 ': the BMC stores the DECIMAL
+    # value of every octet, and get_ip_address reads that address back; then whole addresses in fixed-width form
+    for pos in range(4):
+        steps = []
+        for n, sty in ((10, 'pad3'), (1, 'pad3'), (8, 'pad2'), (9, 'pad3'), (0, 'pad3'), (0, 'pad2'), (255, 'zero+'), (255, 'plain'),
+                       (0, 'plain'), (77, 'pad3'), (64, 'zero+'), (18, 'pad3'), (100, 'pad4'), (7, 'plus'), (9, 'blank-before'),
+                       (8, 'blank-after')):
+            octets, styles = [192, 168, 1, 1], ['plain'] * 4
+            octets[pos], styles[pos] = n, sty
+            ch = rng.choice([0, 1, 2, 7, 15])
+            steps += [C('set_ip_address', *_ip_tokens(octets, ch, styles)), C('get_ip_address', ch)]
+        H(steps)
+    steps = []
+    for octets, sty, tail in (([192, 168, 1, 10], 'pad3', ''), ([10, 20, 30, 40], 'pad3', ''), ([172, 16, 254, 3], 'pad3', ''),
+                              ([0, 0, 0, 0], 'pad3', ''), ([255, 255, 255, 255], 'plain', ''), ([0, 0, 0, 0], 'plain', ''),
+                              ([8, 9, 18, 19], 'pad3', ''), ([8, 9, 0, 7], 'pad2', ''), ([10, 1, 2, 3], 'pad3', ''),
+                              ([100, 77, 5, 70], 'pad3', ''), ([192, 168, 17, 64], 'pad2', ''), ([255, 255, 255, 255], 'zero+', ''),
+                              ([10, 0, 0, 8], 'plain', '\n'), ([192, 168, 1, 9], 'pad3', '\n')):
+        ch = rng.choice([0, 1, 7])
+        steps += [C('set_ip_address', *_ip_tokens(octets, ch, [sty] * 4, tail)), C('get_ip_address', ch)]
+    H(steps)
     for n in tables.CHASSIS_METHODS:
         H([C('chassis_control_' + n), C('get_chassis_status')])
     for n in tables.FRU_CONTROL_METHODS:
@@ -1370,8 +1489,10 @@ def run(ctx):
     drv = ctx.driver('drv_c07')
     # an operation is modelled when the driver maps its name and arguments to a `Spec.Bmc.Call`
     prng = ctx.rng('c07-probe')
-    modelled = set(n for n in sorted(OPS)
-                   if drv.ask('modelreq - %s' % ' '.join([n] + OPS[n].gen(prng))) != 'bad-op')
+    def _mline(n):
+        mop, mtok = OPS[n].modelline(OPS[n].gen(prng))
+        return ' '.join([mop] + list(mtok))
+    modelled = set(n for n in sorted(OPS) if drv.ask('modelreq - %s' % _mline(n)) != 'bad-op')
     ctx.extra['modelled_ops'] = sorted(modelled)
     # `model_refines_oracle` / `history_refines` quantify over the sum type Spec.Bmc.Call; the driver's `ops`
     # command lists the operation names its parser maps into that type, so every modelled operation is a
@@ -1398,7 +1519,7 @@ def run(ctx):
         ('component_description_decoder', 'd'), ('set_fan_level_request_length', 'f'), ('oem_link_type', 'o'),
         ('get_sensor_reading_state_bit_15', 's')))
     rng = ctx.rng('c07')
-    n_hist = 260 if ctx.tier == 'quick' else 6000
+    n_hist = 250 if ctx.tier == 'quick' else 6000
     budget = 40 if ctx.tier == 'quick' else 600
     t0 = time.time()
     done = 0
